@@ -3097,7 +3097,13 @@ TSQuery *ts_query_new(
       // then optimize the matching process by skipping matching the wildcard.
       // Later, during the matching process, the query cursor will check that
       // there is a parent node, and capture it if necessary.
-      if (step->symbol == WILDCARD_SYMBOL && step->depth == 0 && !step->field) {
+      if (
+        step->symbol == WILDCARD_SYMBOL &&
+        step->depth == 0 &&
+        !step->field &&
+        // A supertype root is stored as a wildcard, but it constrains the node.
+        !step->supertype_symbol
+      ) {
         QueryStep *second_step = array_get(&self->steps, start_step_index + 1);
         if (
           second_step->symbol != WILDCARD_SYMBOL &&
